@@ -121,6 +121,8 @@ def asan_class(err):
         return "bad-free"
     if "SEGV" in err:
         return "null"
+    if err == "exit 5":
+        return "not-released"        # the driver's own check: after a release the handle is not cleared, or nothing was given back
     if err == "exit -6":
         return "freed-memory"        # the subject library's own check (release of a pool slot that is not in use, use of a released object)
     return "other:" + err
